@@ -479,7 +479,12 @@ class HyReader(Reader):
             if fstring_mode:
                 # handle braces in f-strings
                 if c == "{":
-                    if "r" not in prefix and s[-3:] == ["\\", "N", "{"]:
+                    if (
+                        "r" not in prefix
+                        and s[-2:] == ["N", "{"]
+                        # an odd number of backslashes: the last one isn't itself escaped
+                        and (len(s) - 2 - len("".join(s[:-2]).rstrip("\\"))) % 2
+                    ):
                         # ignore "\N{...}"
                         in_named_escape = True
                     elif not self.peek_and_getc("{"):
